@@ -15,6 +15,7 @@ import (
 var (
 	mu      sync.Mutex
 	on      bool
+	tickNS  int64 = 1000
 	nowNS   int64
 	timers  []*Timer
 	tickers []*Ticker
@@ -23,9 +24,15 @@ var (
 // Install switches the virtual clock on at the given instant and forgets all timers.
 func Install(t time.Time) {
 	mu.Lock()
-	on, nowNS, timers, tickers = true, t.UnixNano(), nil, nil
+	on, nowNS, timers, tickers, tickNS = true, t.UnixNano(), nil, nil, 1000
 	mu.Unlock()
 }
+
+// SetTick sets how far every Now() reading moves the clock (default 1µs; 0 = frozen between Advances).
+func SetTick(ns int64) { mu.Lock(); tickNS = ns; mu.Unlock() }
+
+// Jump moves the clock by d (which may be negative) WITHOUT firing timers: a wall-clock step.
+func Jump(d time.Duration) { mu.Lock(); nowNS += int64(d); mu.Unlock() }
 
 func Uninstall() { mu.Lock(); on, timers, tickers = false, nil, nil; mu.Unlock() }
 
@@ -35,7 +42,7 @@ func Now() time.Time {
 	if !on {
 		return time.Now()
 	}
-	nowNS += 1000
+	nowNS += tickNS
 	return time.Unix(0, nowNS)
 }
 
